@@ -173,6 +173,9 @@ def rule_2(ctx):
                     ctx.expect(ok, a, f'memo read self.{attr}[...] in {qual}',
                                f'a memo kept on {cref.split(":")[-1]} (long-lived) feeds the value returned by the evaluation path')
     ctx.note(f'memo reads on the evaluation path: {n_memo}')
+    # state kept on formula nodes (they live as long as the model)
+    from . import corelemma
+    corelemma.rule_node_state(ctx)
     ctx.floor(1, 'context constructions + memo reads')
 
 
